@@ -312,3 +312,38 @@ Definition obs_compressed (csc : bool) (sjs : list subjac) (vals : list (list Q)
 
 Definition obs_dense (sjs : list subjac) (vals : list (list Q)) (nr nc : nat) (M : dmat) : val :=
   VL [VB (has_dup_key (all_keys sjs)); vmat (dense_matrix sjs vals nr nc M)].
+
+(* one matrix followed through a sequence of updates (real and imaginary parts of the values are assembled
+   separately: assembly is additive and the unit factor is real).  [full]: the dr/do matrix, observed in all
+   three formats; otherwise dr/di, which SplitJacobian always stores as CSR. *)
+Fixpoint obs_updates (full : bool) (sjs : list subjac) (cs : list bool) (ure uim : list (list (list Q)))
+         (nr nc : nat) (v w : list Q) (mask : list nat) (Mre Mim : dmat) : list val :=
+  match cs, ure, uim with
+  | c :: cs', vre :: ure', vim :: uim' =>
+      let comp (csc : bool) :=
+        let cm := build_map csc (all_keys sjs) in
+        let old := repeat 0 (length (cm_ukeys cm)) in
+        let T := cm_triples cm (cm_update cm sjs vre old) in
+        VL [vnats (cm_map cm); vmat (todense T nr nc);
+            if c then vmat (todense (cm_triples cm (cm_update cm sjs vim old)) nr nc) else VL [];
+            if c then VN else VL [vqs (prod_fwd T nr v); vqs (prod_rev T nc w); vqs (prod_fwd T nr (masked v mask))]] in
+      let Mre' := dense_matrix sjs vre nr nc Mre in
+      let Mim' := dense_matrix sjs vim nr nc Mim in
+      VL ((if full then [comp true] else []) ++ [comp false] ++
+          (if full then [VL [VB (has_dup_key (all_keys sjs)); vmat Mre'; if c then vmat Mim' else VL []]] else []))
+      :: obs_updates full sjs cs' ure' uim' nr nc v w mask Mre' Mim'
+  | _, _, _ => []
+  end.
+Definition obs_matrix (full : bool) (sjs : list subjac) (cs : list bool) (ure uim : list (list (list Q)))
+           (nr nc : nat) (v w : list Q) (mask : list nat) : val :=
+  VL (obs_updates full sjs cs ure uim nr nc v w mask (dzeros nr nc) (dzeros nr nc)).
+
+(* SplitJacobian._apply through run_apply_linear: fwd  r += dr/do v_out + dr/di v_in ;
+   rev  d_out += dr/do^T w,  d_in += dr/di^T w *)
+Definition obs_apply (sdo sdi : list subjac) (vdo vdi : list (list Q)) (nout nin : nat)
+           (v_out v_in w r0 dout0 din0 : list Q) : val :=
+  let Tdo := all_triples sdo vdo in
+  let Tdi := all_triples sdi vdi in
+  VL [vqs (sp_fwd Tdi v_in (sp_fwd Tdo v_out r0));
+      vqs (sp_rev Tdo w dout0);
+      vqs (sp_rev Tdi w din0)].
